@@ -1,6 +1,24 @@
 (* C06: skip_exact, cases for function types and return positions (continues SkipProofs3.v) *)
 From V Require Import Common.Base C06.TsTokens C06.SkipType C06.SkipMono C06.TypeGrammar C06.SkipProofs C06.SkipProofs2 C06.SkipProofs3.
 
+(* n-ary version of ev1..ev4 *)
+Lemma ev_list (l : list (call * (Z * toks))) c r :
+  Forall (fun p => Ev (fst p) (snd p)) l ->
+  (forall s, Forall (fun p => s (fst p) = Ok (snd p)) l -> F s c = Ok r) -> Ev c r.
+Proof.
+  intros Hl.
+  assert (HN : exists N, forall m, (N <= m)%nat -> Forall (fun p => run m (fst p) = Ok (snd p)) l).
+  { induction Hl as [|p l' Hp Hl' IH]; [exists 0%nat; intros; constructor|].
+    destruct IH as [N1 H1]. apply Ev_all in Hp as [N2 H2]. exists (N1 + N2)%nat. intros m Hm.
+    constructor; [apply H2; lia|apply H1; lia]. }
+  intros H. destruct HN as [N HN]. exists (S N). cbn [run]. apply H. apply HN. lia.
+Qed.
+
+Ltac inv_forall :=
+  repeat match goal with H : Forall _ (_ :: _) |- _ => inversion H; subst; clear H end;
+  cbn [fst snd] in *.
+
+
 Section Main4.
 Variable mg : bool.
 Notation R := (R mg).
@@ -8,6 +26,8 @@ Notation Kst := (Kst mg).
 Notation Pst := (Pst mg).
 Notation RetSt := (RetSt mg).
 Notation ParamsSt := (ParamsSt mg).
+Notation TParamsSt := (TParamsSt mg).
+Notation tparamsR := (tparamsR mg).
 
 Lemma bind_is (x : Z) Y : bind_ok x = true ->
   (is_ident (tk1 (bind_tk x) :: Y) || is KThis (tk1 (bind_tk x) :: Y)) = true.
@@ -102,23 +122,157 @@ Proof.
   intros s E1 E2. cbn [F]. unfold F_parenorfn, snd_of, bind. rewrite E1. cbn. unfold type_at, snd_of, bind. rewrite E2. reflexivity.
 Qed.
 
-Lemma K_fn kind ps ret : Forall Pst ps -> Pst ret -> Kst (TFn kind ps ret).
+(* ---- type-parameter lists  <const in out T extends C = D, ...> ---- *)
+Definition mod_tk (m : Z) : token := tk1 (if m =? 0 then KConst else if m =? 1 then KIn else KIdent c_out).
+
+Lemma mods_ev : forall ms res e x Y, normal x = true ->
+  exists code, Ev (CParamMods res e (map mod_tk ms ++ tk1 (KIdent x) :: Y)) (code, tk1 (KIdent x) :: Y).
 Proof.
-  intros HP Pr W lvl f post r Hl _ Hf Ht Hst Hs. cbn [wfb tail_ok prec] in *. specialize (Hst eq_refl).
+  induction ms as [|m r IH]; intros res e x Y Hx.
+  - eexists. apply ev0. intros s. cbn [F map app]. unfold F_parammods.
+    assert (E : is_ctx c_out (tk1 (KIdent x) :: Y) = false).
+    { unfold is_ctx, is, tk1. cbn [fst]. unfold tk_eqb. destruct (tk_eq_dec (KIdent x) (KIdent c_out)) as [E|E]; [|reflexivity].
+      inversion E. subst x. discriminate. }
+    assert (E1 : is KConst (tk1 (KIdent x) :: Y) = false) by reflexivity.
+    assert (E2 : is KIn (tk1 (KIdent x) :: Y) = false) by reflexivity.
+    rewrite E1, E2, E. reflexivity.
+  - cbn [map app]. unfold mod_tk at 1. destruct (m =? 0).
+    + destruct (IH 2 true x Y Hx) as [code H]. exists code. eapply ev1; [exact H|]. intros s E. cbn [F]. unfold F_parammods. cbn. exact E.
+    + destruct (m =? 1).
+      * destruct (IH res true x Y Hx) as [code H]. exists code. eapply ev1; [exact H|]. intros s E. cbn [F]. unfold F_parammods. cbn. exact E.
+      * destruct (IH res false x Y Hx) as [code H]. exists code. eapply ev1; [exact H|]. intros s E. cbn [F]. unfold F_parammods. cbn. exact E.
+Qed.
+
+Ltac crunch s :=
+  cbn [F]; unfold F_paramloop; unfold bind, snd_of, type_at in *;
+  repeat (match goal with H : s _ = Ok _ |- _ => rewrite H end; cbn iota beta).
+
+Lemma ident_first x A : is_ident (tk1 (KIdent x) :: A) = true /\ expect_ident (tk1 (KIdent x) :: A) = Ok A.
+Proof. split; reflexivity. Qed.
+
+Lemma tparam_step mods x hc hd c d rest res post' :
+  normal x = true -> (hc = true -> Kst c /\ wfb c = true) -> (hd = true -> Kst d /\ wfb d = true) ->
+  StopAll rest -> harmless (hd_tk rest) = true -> is KExtends rest = false -> is KEq rest = false ->
+  ((rest = post' /\ is KComma post' = false) \/
+   (exists J, rest = tk1 KComma :: J /\ is KGt J = false /\ forall r0, exists code, Ev (CParamLoop r0 J) (code, post'))) ->
+  exists code, Ev (CParamLoop res (R (TTParam mods x hc hd c d) rest)) (code, post').
+Proof.
+  intros Hx Hc Hd R1 R2 R3 R4 Hrest.
+  set (B := if hd then tk1 KEq :: R d rest else rest).
+  set (A := if hc then tk1 KExtends :: R c B else B).
+  assert (ER : R (TTParam mods x hc hd c d) rest = map mod_tk mods ++ tk1 (KIdent x) :: A)
+    by (subst A B; cbn [R]; unfold mod_tk; destruct hc, hd; reflexivity).
+  rewrite ER. clear ER.
+  destruct (mods_ev mods res true x A Hx) as [mcode HM].
+  assert (HB : StopAll B /\ harmless (hd_tk B) = true) by (subst B; destruct hd; split; auto; reflexivity).
+  assert (HC : hc = true -> Ev (CType LLowest fl0 (R c B)) (0, B)).
+  { intros E. destruct (Hc E). apply K_delim; auto; try apply HB. apply tail_ok_harmless. apply HB. }
+  assert (HD : hd = true -> Ev (CType LLowest fl0 (R d rest)) (0, rest)).
+  { intros E. destruct (Hd E). apply K_delim; auto. apply tail_ok_harmless. exact R2. }
+  destruct (ident_first x A) as [I1 I2].
+  (* one iteration, up to the decision about the comma *)
+  assert (Hiter : forall s, s (CParamMods res true (map mod_tk mods ++ tk1 (KIdent x) :: A)) = Ok (mcode, tk1 (KIdent x) :: A) ->
+            (hc = true -> s (CType LLowest fl0 (R c B)) = Ok (0, B)) -> (hd = true -> s (CType LLowest fl0 (R d rest)) = Ok (0, rest)) ->
+            F s (CParamLoop res (map mod_tk mods ++ tk1 (KIdent x) :: A)) =
+              (let r3 := if hd then 2 else if hc then 2 else (if 10 <=? mcode then mcode - 10 else mcode) in
+               if negb (is KComma rest) then Ok (r3, rest)
+               else if is KGt (tl rest) then Ok (2, tl rest) else s (CParamLoop r3 (tl rest)))).
+  { intros s E1 E2 E3. cbn zeta. cbn [F]. unfold F_paramloop, bind. rewrite E1. cbn iota beta. rewrite I1, orb_true_r, I2. cbn iota beta.
+    subst A B. destruct hc, hd.
+    - assert (X1 : is KExtends (tk1 KExtends :: R c (tk1 KEq :: R d rest)) = true) by reflexivity. rewrite X1. cbn [tl].
+      unfold type_at, snd_of, bind. rewrite (E2 eq_refl). cbn iota beta.
+      assert (X2 : is KEq (tk1 KEq :: R d rest) = true) by reflexivity. rewrite X2. cbn [tl]. rewrite (E3 eq_refl). cbn iota beta. reflexivity.
+    - assert (X1 : is KExtends (tk1 KExtends :: R c rest) = true) by reflexivity. rewrite X1. cbn [tl].
+      unfold type_at, snd_of, bind. rewrite (E2 eq_refl). cbn iota beta. rewrite R4. cbn iota beta. reflexivity.
+    - assert (X1 : is KExtends (tk1 KEq :: R d rest) = false) by reflexivity. rewrite X1. cbn iota beta.
+      assert (X2 : is KEq (tk1 KEq :: R d rest) = true) by reflexivity. rewrite X2. cbn [tl].
+      unfold type_at, snd_of, bind. rewrite (E3 eq_refl). cbn iota beta. reflexivity.
+    - rewrite R3. cbn iota beta. rewrite R4. cbn iota beta. reflexivity. }
+  (* fuel: all sub-evaluations hold from some N on *)
+  apply Ev_all in HM as [N0 HM].
+  assert (HCn : exists N1, forall m, (N1 <= m)%nat -> hc = true -> run m (CType LLowest fl0 (R c B)) = Ok (0, B)).
+  { destruct hc; [destruct (Ev_all _ _ (HC eq_refl)) as [N H]; exists N; intros; apply H; assumption|exists 0%nat; intros; discriminate]. }
+  assert (HDn : exists N2, forall m, (N2 <= m)%nat -> hd = true -> run m (CType LLowest fl0 (R d rest)) = Ok (0, rest)).
+  { destruct hd; [destruct (Ev_all _ _ (HD eq_refl)) as [N H]; exists N; intros; apply H; assumption|exists 0%nat; intros; discriminate]. }
+  destruct HCn as [N1 HCn]. destruct HDn as [N2 HDn].
+  set (r3 := if hd then 2 else if hc then 2 else (if 10 <=? mcode then mcode - 10 else mcode)) in *.
+  destruct Hrest as [[-> Hcm]|[J [-> [HG HJ]]]].
+  - exists r3. exists (S (N0 + N1 + N2)). cbn [run].
+    rewrite (Hiter (run (N0 + N1 + N2)) (HM (N0 + N1 + N2)%nat ltac:(lia)) (HCn (N0 + N1 + N2)%nat ltac:(lia)) (HDn (N0 + N1 + N2)%nat ltac:(lia))). cbn zeta. rewrite Hcm. reflexivity.
+  - destruct (HJ r3) as [code HJr]. apply Ev_all in HJr as [N3 HJr].
+    exists code. exists (S (N0 + N1 + N2 + N3)). cbn [run].
+    rewrite (Hiter (run (N0 + N1 + N2 + N3)) (HM (N0 + N1 + N2 + N3)%nat ltac:(lia)) (HCn (N0 + N1 + N2 + N3)%nat ltac:(lia)) (HDn (N0 + N1 + N2 + N3)%nat ltac:(lia))). cbn zeta.
+    assert (X : is KComma (tk1 KComma :: J) = true) by reflexivity. rewrite X. cbn [negb tl]. rewrite HG. apply HJr. lia.
+Qed.
+
+Lemma tparam_first tp : forall l post', is KGt (join [tk1 KComma] (map R (tp :: l)) post') = false \/ match tp with TTParam _ _ _ _ _ _ => False | _ => True end.
+Proof.
+  intros l post'. destruct tp; try (right; exact I). left.
+  assert (E : forall rest, is KGt (R (TTParam mods x hc hd tp1 tp2) rest) = false).
+  { intros rest. cbn [R]. destruct mods as [|m ms]; cbn [map app]; [reflexivity|].
+    destruct (m =? 0); [reflexivity|]. destruct (m =? 1); reflexivity. }
+  destruct l; cbn [map join]; apply E.
+Qed.
+
+Lemma tparam_loop : forall tps, tps <> [] -> Forall Pst tps -> wf_tparams_with wfb tps = true ->
+  forall res post', StopAll post' -> harmless (hd_tk post') = true -> is KComma post' = false ->
+  is KExtends post' = false -> is KEq post' = false ->
+  exists code, Ev (CParamLoop res (join [tk1 KComma] (map R tps) post')) (code, post').
+Proof.
+  induction tps as [|tp l IH]; intros Hne HP W res post' Hs Hh Hc He Hq; [congruence|].
+  inversion HP as [|? ? Ptp Pl]; subst. cbn [wf_tparams_with] in W.
+  destruct tp; try discriminate. destruct Ptp as [_ [Kc Kd]].
+  repeat match goal with H : _ && _ = true |- _ => apply andb_true_iff in H as [? ?] end.
+  destruct l as [|y l'].
+  - cbn [map join]. apply tparam_step; auto.
+    + intros ->. auto. + intros ->. auto.
+  - change (join [tk1 KComma] (map R (TTParam mods x hc hd tp1 tp2 :: y :: l')) post')
+      with (R (TTParam mods x hc hd tp1 tp2) (tk1 KComma :: join [tk1 KComma] (map R (y :: l')) post')).
+    apply tparam_step; auto; try reflexivity.
+    + intros ->. auto. + intros ->. auto.
+    + right. eexists. split; [reflexivity|]. split.
+      * destruct (tparam_first y l' post') as [E|E]; [exact E|]. destruct y; try contradiction; discriminate.
+      * intros r0. apply IH; auto. discriminate.
+Qed.
+
+(* "<" type parameters ">" through skipTypeScriptTypeParameters *)
+Lemma tparams_st tps : Forall Pst tps -> TParamsSt tps.
+Proof.
+  intros HP W post Hlt. destruct tps as [|tp l]; [exists 0; apply ev0; intros s; cbn [F]; unfold F_params; cbn [SkipProofs3.tparamsR]; rewrite Hlt; reflexivity|].
+  destruct (push_gt_ok mg post) as [P1 [P2 [P3 P4]]].
+  assert (P5 : is KExtends (push_gt mg post) = false /\ is KEq (push_gt mg post) = false).
+  { unfold push_gt. destruct mg; [|split; reflexivity]. destruct post as [|[k n] p]; [split; reflexivity|]. destruct k, n; split; reflexivity. }
+  destruct (tparam_loop (tp :: l) ltac:(discriminate) HP W 1 (push_gt mg post) P1 P2 P3 (proj1 P5) (proj2 P5)) as [code HL].
+  exists code. unfold SkipProofs3.tparamsR.
+  remember (join [tk1 KComma] (map R (tp :: l)) (push_gt mg post)) as J eqn:EJ.
+  assert (EG : is KGt J = false).
+  { subst J. destruct (tparam_first tp l (push_gt mg post)) as [E|E]; [exact E|]. cbn [wf_tparams_with] in W. destruct tp; try contradiction; discriminate. }
+  clear EJ. eapply ev1; [exact HL|]. intros s E1. cbn [F]. unfold F_params. cbn [is tk1 fst tl negb].
+  change (tk_eqb KLt KLt) with true. cbn [negb andb]. rewrite E1. unfold bind. rewrite P4. reflexivity.
+Qed.
+
+
+Lemma K_fn kind tps ps ret : Forall Pst tps -> Forall Pst ps -> Pst ret -> Kst (TFn kind tps ps ret).
+Proof.
+  intros HT HP Pr W lvl f post r Hl _ Hf Ht Hst Hs. cbn [wfb tail_ok prec] in *. specialize (Hst eq_refl).
   repeat match goal with H : _ && _ = true |- _ => apply andb_true_iff in H as [? ?] end.
   pose proof (parenfn_ev ps ret post HP ltac:(assumption) (ret_st ret Pr) ltac:(assumption) Hst Ht) as HF.
   remember (tk1 KLParen :: join [tk1 KComma] (map R ps) (tk1 KRParen :: tk1 KArrow :: R ret post)) as body eqn:EB.
-  assert (ER : R (TFn kind ps ret) post =
-     (if kind =? 2 then [tk1 (KIdent c_abstract); tk1 KNew] else if kind =? 1 then [tk1 KNew] else []) ++ body)
+  assert (ER : R (TFn kind tps ps ret) post =
+     (if kind =? 2 then [tk1 (KIdent c_abstract); tk1 KNew] else if kind =? 1 then [tk1 KNew] else []) ++ tparamsR tps body)
     by (subst body; reflexivity).
   rewrite ER. clear ER.
-  assert (Hcq : colon_or_q body = false) by (subst body; reflexivity).
-  assert (Hhd : hd_tk body = KLParen) by (subst body; reflexivity).
-  assert (Hpar : Ev (CParams false body) (0, body)).
-  { apply ev0. intros s. cbn [F]. unfold F_params. assert (E : is KLt body = false) by (subst body; reflexivity). rewrite E. reflexivity. }
-  assert (Hplain : Ev (CPrefix lvl f body) (1, post)).
-  { eapply ev1; [exact HF|]. intros s E1. cbn [F]. unfold F_prefix. rewrite Hhd. unfold snd_of, bind. rewrite E1. reflexivity. }
-  assert (Hnew : Ev (CPrefix lvl f (tk1 KNew :: body)) (1, post)).
+  assert (Hlt : is KLt body = false) by (subst body; reflexivity).
+  destruct (tparams_st tps HT ltac:(assumption) body Hlt) as [pcode Hpar].
+  set (TB := tparamsR tps body) in *.
+  assert (Hcq : colon_or_q TB = false) by (subst TB body; destruct tps; reflexivity).
+  assert (Hplain : Ev (CPrefix lvl f TB) (1, post)).
+  { subst TB. destruct tps as [|tp l].
+    - cbn [SkipProofs3.tparamsR]. eapply ev1; [exact HF|]. intros s E1. cbn [F]. unfold F_prefix.
+      assert (Hhd : hd_tk body = KLParen) by (subst body; reflexivity). rewrite Hhd. unfold snd_of, bind. rewrite E1. reflexivity.
+    - eapply ev2; [exact Hpar|exact HF|]. intros s E1 E2. cbn [F]. unfold F_prefix.
+      assert (Hhd : hd_tk (tparamsR (tp :: l) body) = KLt) by reflexivity. rewrite Hhd. unfold snd_of, bind. rewrite E1, E2. reflexivity. }
+  assert (Hnew : Ev (CPrefix lvl f (tk1 KNew :: TB)) (1, post)).
   { eapply ev2; [exact Hpar|exact HF|]. intros s E1 E2. cbn [F]. unfold F_prefix. cbn [hd_tk tk1 fst tl].
     rewrite Hcq, andb_false_r. unfold snd_of, bind. rewrite E1, E2. reflexivity. }
   eapply type_of_prefix; [|exact Hs].
